@@ -204,6 +204,140 @@ def _resugar(stmts):
     return out
 
 
+def _tail_yield_shape(fdef):
+    """generator = prelude ; one loop whose body ends with the only yield
+    (as a top-level statement of that body) ; nothing after the loop."""
+    body = list(fdef.body)
+    if body and isinstance(body[0], ast.Expr) and isinstance(
+            body[0].value, ast.Constant) and isinstance(
+                body[0].value.value, str):
+        body = body[1:]
+    yields = [n for n in ast.walk(fdef) if isinstance(n, (ast.Yield,
+                                                          ast.YieldFrom))]
+    if len(yields) != 1 or not body or not isinstance(body[-1], (ast.For,
+                                                                 ast.While)):
+        return False
+    loop = body[-1]
+    if loop.orelse or not loop.body:
+        return False
+    last = loop.body[-1]
+    if not (isinstance(last, ast.Expr) and last.value is yields[0]):
+        return False
+    # no other loop may hold the yield, and the prelude has no loops that
+    # a `break` could be confused with
+    return not any(isinstance(n, (ast.For, ast.While)) for st in loop.body
+                   for n in ast.walk(st))
+
+
+def _desugar_iter_adaptor(loop):
+    """for x in takewhile(P, IT): B  ->  for x in IT: if not P(x): break; B
+    for x in filter(P, IT): B     ->  for x in IT: if not P(x): continue; B
+    (filterfalse dually); P a lambda, functools.partial(operator.OP, a) or a
+    callable expression."""
+    it = loop.iter
+    if not (isinstance(it, ast.Call) and len(it.args) == 2 and
+            not it.keywords):
+        return False
+    name = ast.unparse(it.func)
+    kind = {'itertools.takewhile': 'takewhile', 'takewhile': 'takewhile',
+            'filter': 'filter', 'six.moves.filter': 'filter',
+            'itertools.filterfalse': 'filterfalse',
+            'six.moves.filterfalse': 'filterfalse'}.get(name)
+    if kind is None or not isinstance(loop.target, ast.Name):
+        return False
+    pred, source = it.args
+    var = ast.Name(id=loop.target.id, ctx=ast.Load())
+    cond = None
+    if isinstance(pred, ast.Lambda) and len(pred.args.args) == 1 and \
+            not pred.args.defaults:
+        param = pred.args.args[0].arg
+
+        class Sub(ast.NodeTransformer):
+            def visit_Name(self, node):
+                if node.id == param and isinstance(node.ctx, ast.Load):
+                    return copy.deepcopy(var)
+                return node
+        cond = Sub().visit(copy.deepcopy(pred.body))
+    elif isinstance(pred, ast.Call) and ast.unparse(pred.func) in (
+            'functools.partial', 'partial') and len(pred.args) == 2 and \
+            ast.unparse(pred.args[0]).startswith('operator.'):
+        ops = {'ne': ast.NotEq, 'eq': ast.Eq, 'lt': ast.Lt, 'le': ast.LtE,
+               'gt': ast.Gt, 'ge': ast.GtE, 'is_': ast.Is,
+               'is_not': ast.IsNot, 'contains': None}
+        oper = ast.unparse(pred.args[0]).split('.', 1)[1]
+        if ops.get(oper) is not None:
+            cond = ast.Compare(left=copy.deepcopy(pred.args[1]),
+                               ops=[ops[oper]()], comparators=[var])
+    elif isinstance(pred, ast.Constant) and pred.value is None and \
+            kind != 'takewhile':
+        cond = var
+    if cond is None:
+        if isinstance(pred, (ast.Name, ast.Attribute)):
+            cond = ast.Call(func=copy.deepcopy(pred), args=[var], keywords=[])
+        else:
+            return False
+    if kind == 'takewhile':
+        test, jump = ast.UnaryOp(op=ast.Not(), operand=cond), ast.Break()
+    elif kind == 'filter':
+        test, jump = ast.UnaryOp(op=ast.Not(), operand=cond), ast.Continue()
+    else:
+        test, jump = cond, ast.Continue()
+    guard = ast.If(test=test, body=[jump], orelse=[])
+    for node in ast.walk(guard):
+        ast.copy_location(node, loop)
+    loop.iter = source
+    loop.body = [guard] + loop.body
+    return True
+
+
+def _split_parallel(stmts):
+    """a, b = x, y  ->  a = x ; b = y   when no right-hand side reads a
+    name bound on the left (so the order does not matter)."""
+    out = []
+    for st in stmts:
+        if isinstance(st, ast.Assign) and len(st.targets) == 1 and \
+                isinstance(st.targets[0], ast.Tuple) and \
+                isinstance(st.value, ast.Tuple) and \
+                len(st.targets[0].elts) == len(st.value.elts) and \
+                all(isinstance(t, ast.Name) for t in st.targets[0].elts):
+            bound = set(t.id for t in st.targets[0].elts)
+            reads = set(n.id for v in st.value.elts for n in ast.walk(v)
+                        if isinstance(n, ast.Name))
+            if not (bound & reads) and len(bound) == len(st.targets[0].elts):
+                for tgt, val in zip(st.targets[0].elts, st.value.elts):
+                    new = ast.Assign(targets=[tgt], value=val)
+                    ast.copy_location(new, st)
+                    out.append(new)
+                continue
+        out.append(st)
+    return out
+
+
+def _iterator_temps(stmts):
+    """X = CALL(...) ; for T in X: ...  (X not used elsewhere in the list)
+    ->  for T in CALL(...): ...   so that adaptors and generator helpers are
+    seen where they are consumed."""
+    out = list(stmts)
+    idx = 0
+    while idx + 1 < len(out):
+        first, second = out[idx], out[idx + 1]
+        if isinstance(first, ast.Assign) and len(first.targets) == 1 and \
+                isinstance(first.targets[0], ast.Name) and \
+                isinstance(first.value, ast.Call) and \
+                isinstance(second, (ast.For,)) and \
+                isinstance(second.iter, ast.Name) and \
+                second.iter.id == first.targets[0].id:
+            name = first.targets[0].id
+            uses = sum(1 for st in out for n in ast.walk(st)
+                       if isinstance(n, ast.Name) and n.id == name)
+            if uses == 2:
+                second.iter = first.value
+                del out[idx]
+                continue
+        idx += 1
+    return out
+
+
 def _is_logging(stmt):
     return isinstance(stmt, ast.Expr) and isinstance(stmt.value, ast.Call) \
         and isinstance(stmt.value.func, ast.Attribute) and \
@@ -549,9 +683,9 @@ class Inliner(object):
         if len(stack) > MAX_DEPTH:
             return stmts
         out = []
-        for stmt in stmts:
+        for stmt in _iterator_temps(stmts):
             out.extend(self.stmt(caller, stmt, stack))
-        return _fuse(_resugar(out))
+        return _fuse(_resugar(_split_parallel(out)))
 
     def _fresh(self, name):
         self.counter += 1
@@ -695,10 +829,13 @@ class Inliner(object):
                     if own_jumps(hdl.body):
                         return True
             return False
-        if own_jumps(stmt.body):
-            return None
         callee = self.inlinable(caller, stmt.iter, stack, generator=True)
         if callee is None:
+            return None
+        if own_jumps(stmt.body) and not _tail_yield_shape(callee.raw):
+            # break / continue of the consumer map onto the generator's loop
+            # only when the single yield ends the body of its only loop and
+            # nothing follows that loop
             return None
         raw = copy.deepcopy(callee.raw)
         ok = [True]
@@ -752,7 +889,18 @@ class Inliner(object):
                     block._inline = 'loop body'
                     return block
                 return node
-        return [Fill().visit(node) for node in expanded]
+        filled = [Fill().visit(node) for node in expanded]
+
+        class Split(ast.NodeTransformer):
+            def generic_visit(self, node):
+                node = ast.NodeTransformer.generic_visit(self, node)
+                for field in ('body', 'orelse', 'finalbody'):
+                    sub = getattr(node, field, None)
+                    if isinstance(sub, list) and sub and isinstance(
+                            sub[0], ast.stmt):
+                        setattr(node, field, _split_parallel(sub))
+                return node
+        return [Split().visit(node) for node in filled]
 
     def expr_helpers(self, caller, stmt, stack):
         """Calls to pure single-expression helpers of the module (return E,
@@ -865,6 +1013,7 @@ class Inliner(object):
             for hdl in stmt.handlers:
                 hdl.body = self.process(caller, hdl.body, stack)
         if isinstance(stmt, ast.For):
+            _desugar_iter_adaptor(stmt)
             unrolled = self.generator_loop(caller, stmt, stack)
             if unrolled is not None:
                 return unrolled
